@@ -304,6 +304,25 @@ pub fn arith(m: &mut M, r: &mut Rng, n: u64, which: &str) {
                 }
             }
         }
+        if i % 4 == 2 {
+            // the same value on both sides (x op x), by value, by reference to two copies, and with the SAME
+            // reference twice: squares, doubling, x - x, x / x, x % x
+            for spn in ["vv", "rv", "vr", "rr", "av", "ar", "aa"] {
+                if all || which == "mul" {
+                    m.call("arith", "mul", spn, Some(2), &[A::R(0), A::R(0)]);
+                }
+                if all || which == "add" {
+                    m.call("arith", "add", spn, Some(2), &[A::R(0), A::R(0)]);
+                    m.call("arith", "sub", spn, Some(2), &[A::R(0), A::R(0)]);
+                }
+                if (all || which == "div") && m.tf(0).hi() != 0.0 {
+                    m.call("arith", "div", spn, Some(2), &[A::R(0), A::R(0)]);
+                }
+                if (all || which == "rem") && m.tf(0).hi() != 0.0 {
+                    m.call("arith", "rem", spn, Some(2), &[A::R(0), A::R(0)]);
+                }
+            }
+        }
         if all || which == "add" {
             if i % 2 == 0 {
                 // ulp-level cancellation of the high words with two independent full-width low words, through
@@ -354,6 +373,17 @@ pub fn arith(m: &mut M, r: &mut Rng, n: u64, which: &str) {
                     fl = vec![big, tie, -big, pow2(e0 - 60) * (1.0 + r.below(8) as f64 / 8.0), pow2(e0 - 113), r.f64_in(e0 - 130, e0 - 100)];
                     if r.coin() {
                         fl.insert(0, r.f64_in(e0 - 140, e0 - 120));
+                    }
+                    if r.below(3) == 0 {
+                        // [B, u, -B, v]: u is absorbed entirely by the large term and survives only in the error terms,
+                        // v arrives after the cancellation, and u + v is a round-to-even tie (v ends half an ulp below
+                        // the ulp of the sum): any compensated scheme that recombines its parts in the wrong order
+                        // (smaller magnitude first) rounds twice there
+                        let eu = r.range(-10, 10) as i32;
+                        let u = f64::from_bits((((eu + 1023) as u64) << 52) | (r.next() & ((1u64 << 52) - 1)) | 1);
+                        let v = pow2(eu - 1) + pow2(eu - 52) * (r.below(1 << 20) as f64) + pow2(eu - 53);
+                        let bb = pow2(eu + r.range(56, 80) as i32);
+                        fl = if r.coin() { vec![bb, u, -bb, v] } else { vec![-bb, -u, bb, -v] };
                     }
                 }
                 for spn in ["sum_v", "sum_r", "fold"] {
